@@ -23,15 +23,19 @@ def variants(body):
     return out
 
 
-def shrink(body, is_bad_batch, max_rounds=40):
-    """is_bad_batch(list of bodies) -> list of indices that are still bad."""
+def shrink(body, is_bad_batch, max_rounds=30, per_round=40):
+    """is_bad_batch(list of bodies) -> list of indices that are still bad.  Each round tries the
+    per_round smallest variants (big deletions first)."""
     for _ in range(max_rounds):
-        vs = variants(body)
+        vs = sorted(variants(body), key=lambda b: len(repr(b)))[:per_round]
         if not vs:
             break
         bad = is_bad_batch(vs)
         if not bad:
-            break
-        # prefer the smallest
-        body = min((vs[i] for i in bad), key=lambda b: len(repr(b)))
+            vs2 = sorted(variants(body), key=lambda b: len(repr(b)))[per_round:per_round * 4]
+            bad = is_bad_batch(vs2) if vs2 else []
+            if not bad:
+                break
+            vs = vs2
+        body = vs[bad[0]]
     return body
